@@ -65,7 +65,7 @@ def make_ws(root, files, patches, series_lines, applied=None, patches_dir='patch
         with open(p, 'wb') as f:
             f.write(data)
     with open(os.path.join(root, 'series'), 'wb') as f:
-        f.write(b''.join((l if isinstance(l, bytes) else l.encode()) + b'\n' for l in series_lines))
+        f.write(b''.join((l if isinstance(l, bytes) else os.fsencode(l)) + b'\n' for l in series_lines))
     if applied is not None:
         os.makedirs(os.path.join(root, '.pc'), exist_ok=True)
         with open(os.path.join(root, '.pc', 'applied-patches'), 'wb') as f:
